@@ -505,9 +505,9 @@ package tlog
 //@   requires 0 <= n && n < pow2(61)
 //@   ensures [C09] count: result == S0(n) && result == StoredHashIndex(0, n)
 //@   loop 0:
-//@     invariant n >= 1 && i >= 0 && i <= n - 1 && numHash + TO(i) == S0(n - 1) + 1 + TO(n - 1) && TO(i) >= 0
+//@     invariant n >= 1 && i >= 0 && i <= n - 1 && numHash + TO(i) == S0(n - 1) + 1 + TO(n - 1) && TO(i) >= 0 && 0 <= numHash && numHash <= 3 * n
 //@     decreases i
-//@   uses S0_step TO_TZ TZ_nonneg S0_upper S0_nonneg
+//@   uses S0_step TO_TZ TZ_nonneg S0_upper S0_nonneg TO_upper
 //@   props C09
 
 //@ lemma S0_upper(m int)
@@ -536,6 +536,24 @@ package tlog
 //@   uses TZ_factor shr_exact
 //@   hint QK(m + 1, k) >= 1
 //@   trigger m >> k, TZ(m + 1)
+//@   props C09
+
+//@ # the k'th hash committed with record m sits k places after m's leaf hash
+//@ lemma split_index(m int, k int)
+//@   requires m >= 0 && 0 <= k && k <= TZ(m + 1)
+//@   ensures (m >> k) >= 0 && SHI(k, m >> k) == S0(m) + k
+//@   uses split_coords
+//@   trigger m >> k
+//@   props C09
+//@ lemma TZ_upper(x int)
+//@   ensures x >= 0 ==> TZ(x) <= x
+//@   induction x
+//@   trigger TZ(x)
+//@   props C09
+//@ lemma TO_upper(x int)
+//@   ensures TO(x) >= 0 && (x >= 0 ==> TO(x) <= x)
+//@   induction x
+//@   trigger TO(x)
 //@   props C09
 
 //@ # SplitStoredHashIndex is a right inverse of StoredHashIndex: every position is the position of exactly the
